@@ -51,8 +51,16 @@ def drive(pid, tier, seed, only, res):
     rnd = random.Random(seed)
     prog = v1sum.program(refresh=True)
     build_replay()
-    kinds = spec['kinds']
+    kinds = list(spec['kinds'])
     lmax = {k: spec['lmax'][tier] for k in kinds}
+    obligations = list(spec['obligations'])
+    extra = spec.get('thorough_extra') if tier == 'thorough' else None
+    if extra:
+        for k in extra['kinds']:
+            if k not in kinds:
+                kinds.append(k)
+                lmax[k] = extra['lmax']
+        obligations += extra['obligations']
     if os.environ.get('VERIF_LMAX'):
         lmax = {k: int(os.environ['VERIF_LMAX']) for k in kinds}
     scripts = {}
@@ -76,13 +84,34 @@ def drive(pid, tier, seed, only, res):
     w_init(lmax, scripts, known)
     summaries = {k: w_summary(k) for k in kinds}
 
+    jobs = int(os.environ.get('VERIF_M_JOBS', '14'))
+    pool = cf.ProcessPoolExecutor(max_workers=jobs, mp_context=mp.get_context('spawn'), initializer=w_init, initargs=(lmax, scripts, known))
+    try:
+        drive2(pid, tier, seed, only, res, spec, rnd, prog, kinds, lmax, scripts, known, summaries, pool, obligations)
+    finally:
+        pool.shutdown(wait=False, cancel_futures=True)
+
+
+def drive2(pid, tier, seed, only, res, spec, rnd, prog, kinds, lmax, scripts, known, summaries, pool, obligations):
     # ---- 3.4 validation of the encoding against the native crate
-    nval = validate(prog, kinds, summaries, res, rnd)
+    nval = validate(prog, kinds, summaries, res, rnd, pool)
     res['validated'] = nval
+
+    results = []
+    # ---- modular obligations (run in this process)
+    if spec.get('modular'):
+        t0 = time.time()
+        if tier == 'thorough' and spec.get('modular_thorough'):
+            spec = dict(spec, modular=spec['modular_thorough'])
+        na, nb, recs = getattr(props_v1, spec['modular'])(prog, max(list(lmax.values()) + [spec['lmax'][tier]]))
+        results += recs
+        print('[M] %s: %d x %d stubbed-callee paths, %d queries in %.0fs' % (spec['modular'], na, nb, len(recs), time.time() - t0), flush=True)
+        res['bounds'].append('%s: window logic, from_utf8, map_err, FromStr glue executed with parse_header / try_from(&str) as an uninterpreted function of its argument slice; every valid-UTF-8 text of at most LMAX=%d bytes' % (spec['modular'], max(list(lmax.values()) + [spec['lmax'][tier]])))
+        res['distinct'] += na + nb
 
     # ---- obligations
     tasks = []
-    for obname, okinds in spec['obligations']:
+    for obname, okinds in obligations:
         for k in okinds:
             ctx, paths = summaries[k]
             for p in paths:
@@ -93,13 +122,9 @@ def drive(pid, tier, seed, only, res):
         if sel:
             tasks = [t for t in tasks if t[0] in sel]
     rnd.shuffle(tasks)
-    jobs = int(os.environ.get('VERIF_M_JOBS', '14'))
-    results = []
     t0 = time.time()
-    with cf.ProcessPoolExecutor(max_workers=jobs, mp_context=mp.get_context('spawn'), initializer=w_init,
-                                initargs=(lmax, scripts, known)) as pool:
-        for rs, dt in pool.map(w_task, tasks, chunksize=4):
-            results += rs
+    for rs, dt in pool.map(w_task, tasks, chunksize=4):
+        results += rs
     print('[M] %d obligation tasks -> %d queries in %.0fs wall' % (len(tasks), len(results), time.time() - t0), flush=True)
 
     # ---- collect
@@ -131,80 +156,53 @@ def drive(pid, tier, seed, only, res):
                 res['samples'].append({'engine': 'M', 'entry': k, 'path': p.idx, 'outcome': p.label(), 'witness_input': repr(p.witness)})
 
 
-def validate(prog, kinds, summaries, res, rnd):
+def validate(prog, kinds, summaries, res, rnd, pool):
     """(a) one witness per feasible path, (b) the string literals of the repo's own v1 tests and doc
-    examples: the outcome predicted by the summary must equal what the native crate does."""
+    examples (+ a few extra shapes): the outcome predicted by the encoding must equal what the native crate
+    does, in the dev and the release build. Cached per (MIR hash, model sources, entry, LMAX): the same tree
+    and the same models give the same answer."""
     n = 0
     entry_of = props_v1.ENTRY_OF
     lits = props_v1.test_literals(prog)
     for k in kinds:
         ctx, paths = summaries[k]
-        s = z3.Solver()
-        s.set('arith.solver', 2)
-        s.set('timeout', 120000)
-        for a in ctx.axioms:
-            s.add(a)
-        reqs = []
-        for p in paths:
-            s.push()
-            for c in p.pc:
-                s.add(c)
-            # realisable witnesses: address fields from the dictionary
-            real = props_v1.realizable(ctx, p)
-            s.push()
-            for c in real:
-                s.add(c)
-            r = s.check()
-            if r != z3.sat:
-                s.pop()
-                r = s.check()
-                if r != z3.sat:
-                    raise Unsupported('path %d of %s has an unsatisfiable condition on replay (%s)' % (p.idx, k, r))
-                p.witness = None     # feasible only with address texts outside the dictionary: not replayable
-                s.pop()
-                continue
-            m = s.model()
-            p.witness = v1sum.model_bytes(m, ctx)
-            want = props_v1.render(p, k, m)
-            s.pop()
-            s.pop()
-            reqs.append((p, p.witness, want))
-        res['solver_s'] += 0.0
-        for prof in ('dev', 'release'):
-            lines = native([(entry_of[k], w) for _, w, _ in reqs], prof)
-            for (p, w, want), line in zip(reqs, lines):
-                if not props_v1.same_outcome(want, line):
-                    raise Unsupported('encoding disagrees with the native crate (%s build) on entry %s, input %r: summary path %d predicts `%s`, real code gives `%s`'
-                                      % (prof, k, w, p.idx, want, line))
-                n += 1
-        # (b) literals: execute the MIR on each concrete literal (input fixed by extra axioms, so exactly one
-        #     path is feasible) and compare the predicted outcome with the native crate
+        key = hashlib.sha256(('val|%s|%s|%s|%d|%s' % (prog.mir_sha, v1sum.model_version(), k, ctx.lmax, props_v1.RENDER_VERSION)).encode()).hexdigest()[:32]
+        cpath = os.path.join(v1sum.CACHE, 'validated-%s.json' % key)
+        if os.path.exists(cpath):
+            d = json.load(open(cpath))
+            for p, w in zip(paths, d['witnesses']):
+                p.witness = bytes.fromhex(w) if w is not None else None
+            n += d['n']
+            print('[M] validation %s: %d native comparisons (cached for this MIR hash)' % (k, d['n']), flush=True)
+            continue
         todo = [l for l in lits if len(l) <= ctx.lmax and (k == 'bytes' or is_utf8(l))] if k != 'str_views' else []
-        lines = native([(entry_of[k], l) for l in todo], 'dev')
-        for lit, line in zip(todo, lines):
-            fixed = list(ctx.axioms) + [ctx.L == len(lit)] + [ctx.S(i) == b for i, b in enumerate(lit)] + [props_v1.dictionary_axioms(ctx, lit)]
-            ex = v1sum.new_exec(prog, [ctx], ctx.lmax)
-            ex.suffix = ctx.suffix
-            got = explore(ex, v1sum.runner(prog, k, ctx), base_axioms=fixed)
-            if len(got) != 1:
-                raise Unsupported('literal %r drives %d paths of entry %s (expected exactly 1)' % (lit, len(got), k))
-            sc, items_, outc, notes = got[0]
-            p1 = v1sum.Path(sc, items_, outc, notes, -1)
-            pc = p1.pc
-            props_v1.annotate(prog, k, [p1])
-            s.push()
-            for a in fixed[len(ctx.axioms):]:
-                s.add(a)
-            for c in pc:
-                s.add(c)
-            if s.check() != z3.sat:
-                raise Unsupported('literal %r: path condition not satisfiable' % (lit,))
-            want = props_v1.render(p1, k, s.model())
-            s.pop()
-            if not props_v1.same_outcome(want, line):
-                raise Unsupported('encoding disagrees with the native crate on test literal %r (entry %s): predicted `%s`, real `%s`' % (lit, k, want, line))
-            n += 1
-        print('[M] validation %s: %d path witnesses x 2 profiles + %d test literals agree with the native crate' % (k, len(reqs), len(todo)), flush=True)
+        tasks = [('val_witness', k, p.idx, {}) for p in paths] + [('val_literal', k, -1, {'lit': l.hex()}) for l in todo]
+        out = []
+        for rs, dt in pool.map(w_task, tasks, chunksize=2):
+            out += rs
+        reqs = []
+        for r in out:
+            if r['status'] == 'error':
+                raise Unsupported(r['detail'])
+            if r['status'] == 'unsupported':
+                raise Unsupported(r.get('detail', ''))
+            if r['status'] == 'ok':
+                reqs.append(r)
+                if r['task'][0] == 'val_witness':
+                    paths[r['task'][2]].witness = bytes.fromhex(r['witness'])
+        cnt = 0
+        for prof in ('dev', 'release'):
+            lines = native([(entry_of[k], bytes.fromhex(r['witness'])) for r in reqs], prof)
+            for r, line in zip(reqs, lines):
+                if not props_v1.same_outcome(r['want'], line):
+                    raise Unsupported('encoding disagrees with the native crate (%s build) on entry %s, input %r: the encoding predicts `%s`, the real code gives `%s`'
+                                      % (prof, k, bytes.fromhex(r['witness']), r['want'], line))
+                cnt += 1
+        n += cnt
+        os.makedirs(v1sum.CACHE, exist_ok=True)
+        json.dump({'n': cnt, 'witnesses': [p.witness.hex() if p.witness is not None else None for p in paths]}, open(cpath, 'w'))
+        print('[M] validation %s: %d path witnesses + %d literals, each in 2 build profiles, agree with the native crate' % (
+            k, sum(1 for r in reqs if r['task'][0] == 'val_witness'), len(todo)), flush=True)
     return n
 
 
